@@ -506,19 +506,24 @@ namespace Pistache::Rest
                 return Route::Status::Match;
         }
 
-        auto& r              = routes[req.method()];
+        // route() runs on every worker thread of a shared router: look the method up
+        // without inserting into the map
         const auto sanitized = SegmentTreeNode::sanitizeResource(resource);
         const std::string_view path { sanitized.data(), sanitized.size() };
-        auto result = r.findRoute(path);
-
-        auto route = std::get<0>(result);
-        if (route != nullptr)
+        auto routesIt = routes.find(req.method());
+        if (routesIt != std::end(routes))
         {
-            auto params = std::get<1>(result);
-            auto splats = std::get<2>(result);
-            route->invokeHandler(Request(std::move(req), std::move(params), std::move(splats)),
-                                 std::move(resp));
-            return Route::Status::Match;
+            auto result = routesIt->second.findRoute(path);
+
+            auto route = std::get<0>(result);
+            if (route != nullptr)
+            {
+                auto params = std::get<1>(result);
+                auto splats = std::get<2>(result);
+                route->invokeHandler(Request(std::move(req), std::move(params), std::move(splats)),
+                                     std::move(resp));
+                return Route::Status::Match;
+            }
         }
 
         for (const auto& handler : customHandlers)
